@@ -1,6 +1,16 @@
 //! C17 — turmoil-net binds and routes packets like a real socket table.
-//! DESIGN.md §6 C17.  NetWire driver, controller flavour (`netwire_ext`), no
-//! packet faults: every packet is delivered in the round it is emitted.
+//! DESIGN.md §6 C17.  NetWire driver, controller flavour (`netwire_ext`).  Two wire classes: in
+//! the *immediate* class every packet is delivered in the round it is emitted; in the *delayed*
+//! class (`Scenario::wire`, about half of the cases) every TCP segment emitted while a TCP
+//! connect is in progress (scenario connects and the TCP probe matrix) is held 0 or 2..=4 rounds
+//! by a generated pattern (so segments are also reordered) and optionally one SYN-ACK is lost.
+//! With retx_threshold 3 the connector's SYN is then retransmitted before the SYN-ACK returns:
+//! duplicate SYNs, SYN-ACKs and handshake ACKs reach hosts that already hold the connection, and
+//! the clause "an established TCP connection before a listener" is exercised on the handshake
+//! itself.  The delayed class runs with retx_max 4, so holds <= 4 and one lost SYN-ACK stay well
+//! inside the retransmit budget and every modelled result (Ok / Refused / TimedOut) is certain;
+//! after each connect the wire is left to settle (idle for retx_threshold*(retx_max+2) rounds)
+//! before anything is judged.
 //!
 //! A scenario builds 2..=3 hosts with 1..=2 addresses per family, shrinks
 //! every host's ephemeral range (hook H3) to 1..=4 ports that overlap two of
@@ -22,7 +32,9 @@
 //!            the host owning the address (loopback: the own host);
 //!            `ConnectionRefused` otherwise; unknown address -> `TimedOut`;
 //!            ephemeral range exhausted -> `AddrInUse`.  The connection comes
-//!            out of exactly that listener with mirrored addresses.
+//!            out of exactly that listener with mirrored addresses, exactly once (a second
+//!            poll of every listener finds nothing), and after the wire settled the H2 counts
+//!            equal the model: one server-side socket per established 4-tuple.
 //! * ROUTE    probe matrix at the end: from every host one tagged UDP
 //!            datagram and one TCP connect to every (address, port) with
 //!            address in {every address of every host, loopback, one unknown
@@ -33,10 +45,11 @@
 //!            names (payload and source address intact) and by no other
 //!            socket on any host; every TCP probe has the modelled result and
 //!            is accepted by exactly the modelled listener; a tag written on
-//!            each established connection is read by its peer stream only.
+//!            each established connection is read by its peer stream only; after the probe
+//!            connections are closed the H2 counts equal the model again.
 
-use crate::drivers::netwire::SockRow;
-use crate::drivers::netwire_ext::{now_or_never, poll_once, AllNow, Held, World};
+use crate::drivers::netwire::{Fate, Kind, PktRec, SockRow, Tracker};
+use crate::drivers::netwire_ext::{now_or_never, poll_once, AllNow, Held, Policy, World};
 use crate::engine::{replay_as, Ctx, Outcome, Tier};
 use proptest::prelude::*;
 use serde::{Deserialize, Serialize};
@@ -58,6 +71,9 @@ const PROBE_EPH: std::ops::RangeInclusive<u16> = 30000..=30999;
 const PROBE_SRC_PORT: u16 = 20000;
 const RETX_T: u32 = 3;
 const RETX_M: u32 = 1;
+/// retransmit budget of the delayed-wire class (holds <= 4 rounds and one lost SYN-ACK must fit)
+const RETX_M_DELAYED: u32 = 4;
+const MAX_HOLD: u32 = 4;
 
 #[derive(Clone, Copy, Debug, Serialize, Deserialize, PartialEq)]
 pub enum AddrSel {
@@ -103,6 +119,51 @@ pub struct HostCfg {
 pub struct Scenario {
     pub hosts: Vec<HostCfg>,
     pub ops: Vec<Op>,
+    /// None: every packet is delivered in the round it is emitted.  Some: the delayed-wire class
+    #[serde(default)]
+    pub wire: Option<WirePlan>,
+}
+
+/// Delay / reorder policy applied to TCP segments while TCP connects are in progress (scenario
+/// connects and the TCP probe matrix), so that retransmitted SYNs, SYN-ACKs and other duplicates
+/// reach hosts that already hold the connection.
+#[derive(Clone, Debug, Serialize, Deserialize, PartialEq)]
+pub struct WirePlan {
+    /// hold (rounds) of the n-th TCP segment = holds[n % len]; 0/1 = deliver at once, otherwise 2..=4
+    pub holds: Vec<u8>,
+    /// drop the n-th SYN-ACK (once; well within the retransmit budget)
+    pub drop_synack: Option<u8>,
+}
+
+struct WirePol {
+    holds: Vec<u32>,
+    drop_synack: Option<u32>,
+    active: bool,
+    n_tcp: usize,
+    n_synack: u32,
+    dropped: bool,
+}
+impl Policy for WirePol {
+    fn fate(&mut self, rec: &PktRec, _tr: &Tracker) -> Fate {
+        if !self.active || rec.tcp.is_none() || self.holds.is_empty() {
+            return Fate::Now;
+        }
+        if rec.kind == Kind::SynAck {
+            let n = self.n_synack;
+            self.n_synack += 1;
+            if !self.dropped && self.drop_synack == Some(n) {
+                self.dropped = true;
+                return Fate::Drop;
+            }
+        }
+        let h = self.holds[self.n_tcp % self.holds.len()];
+        self.n_tcp += 1;
+        if h < 2 {
+            Fate::Now
+        } else {
+            Fate::Hold(h.min(MAX_HOLD))
+        }
+    }
 }
 
 // ---------------------------------------------------------------- model
@@ -180,6 +241,10 @@ struct Sim {
     shared_port: bool,
     port0_allocs: BTreeMap<(usize, bool, bool), u32>,
     trace: bool,
+    retx_m: u32,
+    delayed: bool,
+    pol: WirePol,
+    syn_seen: BTreeSet<(SocketAddr, SocketAddr)>,
     world: World,
 }
 
@@ -306,13 +371,33 @@ impl Sim {
 
     // ------------------------------------------------------------ wire
 
+    /// one round: with the delay policy while it is active, else everything at once
+    fn step(&mut self) -> (usize, usize, usize) {
+        let before = self.world.pkts.len();
+        let (d, st) = if self.pol.active { self.world.step(&mut self.pol) } else { self.world.step(&mut AllNow) };
+        for id in d.iter() {
+            let r = &self.world.pkts[*id];
+            if r.kind == Kind::Syn && !self.syn_seen.insert((r.src, r.dst)) {
+                // a second SYN of a 4-tuple reaches a host that already answered the first with a SYN-ACK
+                let answered = self.world.tracker.lookup(r.src, r.dst).map(|(c, _)| self.world.tracker.conns[c].ends[1].isn.is_some()).unwrap_or(false);
+                if answered {
+                    self.out.label("wire:duplicate-syn-reaches-host-holding-the-connection");
+                }
+            }
+        }
+        (self.world.pkts.len() - before, d.len(), st.held)
+    }
+
     fn pump(&mut self) {
+        if self.pol.active {
+            // retransmissions are part of the picture: wait them out
+            return self.settle();
+        }
         let mut quiet = 0;
         let mut n = 0;
         while quiet < 2 && n < 200 {
-            let before = self.world.pkts.len();
-            let (d, _) = self.world.step(&mut AllNow);
-            if self.world.pkts.len() == before && d.is_empty() {
+            let (e, d, held) = self.step();
+            if e == 0 && d == 0 && held == 0 {
                 quiet += 1;
             } else {
                 quiet = 0;
@@ -323,13 +408,12 @@ impl Sim {
 
     /// wait until no TCP retransmit counter can be running any more
     fn settle(&mut self) {
-        let q = RETX_T * (RETX_M + 2);
+        let q = RETX_T * (self.retx_m + 2);
         let mut quiet = 0;
         let mut n = 0;
         while quiet < q && n < 40 * q {
-            let before = self.world.pkts.len();
-            let (d, _) = self.world.step(&mut AllNow);
-            if self.world.pkts.len() == before && d.is_empty() {
+            let (e, d, held) = self.step();
+            if e == 0 && d == 0 && held == 0 {
                 quiet += 1;
             } else {
                 quiet = 0;
@@ -503,11 +587,11 @@ impl Sim {
     fn drive_connect(&mut self, h: usize, dst: SocketAddr) -> std::io::Result<TcpStream> {
         self.world.pin(h);
         let mut fut: Held<ConnFut> = self.world.hold(h, Box::pin(TcpStream::connect(dst)));
-        for _ in 0..((RETX_M + 2) * RETX_T + 6) {
+        for _ in 0..((self.retx_m + 2) * RETX_T + 6) {
             if let Poll::Ready(r) = poll_once(fut.get_mut().as_mut()) {
                 return r;
             }
-            self.world.step(&mut AllNow);
+            self.step();
         }
         Err(std::io::Error::other("connect never resolved"))
     }
@@ -524,6 +608,17 @@ impl Sim {
     }
 
     fn tcp_connect_to(&mut self, h: usize, dst: SocketAddr) {
+        self.tcp_connect_inner(h, dst);
+        if self.pol.active {
+            // let every delayed duplicate arrive before the next step (and before the count check)
+            if !self.failed {
+                self.settle();
+            }
+            self.pol.active = false;
+        }
+    }
+
+    fn tcp_connect_inner(&mut self, h: usize, dst: SocketAddr) {
         let v6 = dst.is_ipv6();
         let range = self.eph(h);
         // model
@@ -547,6 +642,7 @@ impl Sim {
                 Ok(Some(l)) => Ok(l),
             }
         };
+        self.pol.active = self.delayed;
         let res = self.drive_connect(h, dst);
         let ctx = format!("tcp connect({dst}) from host {h}; model: {exp:?}; free ephemeral ports {free:?}; listeners {:?}", self.entries.iter().filter(|e| e.live && e.role == Role::Listener).map(|e| format!("h{} {}:{}", e.host, e.addr, e.port)).collect::<Vec<_>>());
         match (res, exp) {
@@ -593,6 +689,27 @@ impl Sim {
                     self.fail("connect:ok-but-no-listener-has-the-connection", ctx);
                     return;
                 };
+                // ... and exactly once: no listener has anything more to hand out
+                for i in 0..self.entries.len() {
+                    if !(self.entries[i].live && self.entries[i].role == Role::Listener) {
+                        continue;
+                    }
+                    let Obj::Lst(l) = &self.objs[i] else { continue };
+                    let mut cx = std::task::Context::from_waker(std::task::Waker::noop());
+                    if let Poll::Ready(r) = l.get().poll_accept(&mut cx) {
+                        let what = match r {
+                            Ok((s, peer)) => {
+                                let sl = s.local_addr().ok();
+                                drop(self.world.hold(self.entries[i].host, s));
+                                format!("(local {sl:?}, peer {peer})")
+                            }
+                            Err(e) => format!("{e:?}"),
+                        };
+                        let d = format!("{ctx}: after the connection was accepted once, listener h{} {}:{} hands out another one: {what}", self.entries[i].host, self.entries[i].addr, self.entries[i].port);
+                        self.fail("connect:one-connect-yields-a-second-accepted-connection", d);
+                        return;
+                    }
+                }
                 let sh = self.entries[li].host;
                 self.entries.push(Entry { host: h, tcp: true, addr: cl.ip(), port: cl.port(), role: Role::ConnEnd { conn: self.conns.len(), peer: dst }, live: true });
                 self.objs.push(Obj::Stream(cs));
@@ -842,7 +959,8 @@ impl Sim {
                 }
             }
         }
-        for _ in 0..((RETX_M + 2) * RETX_T + 8) {
+        self.pol.active = self.delayed;
+        for _ in 0..((self.retx_m + 2) * RETX_T + 8) {
             let mut pending = 0;
             for p in ps.iter_mut() {
                 if let Some(f) = p.fut.as_mut() {
@@ -863,9 +981,10 @@ impl Sim {
             if pending == 0 {
                 break;
             }
-            self.world.step(&mut AllNow);
+            self.step();
         }
         self.pump();
+        self.pol.active = false;
         // results
         let mut per_listener: BTreeMap<usize, BTreeSet<(SocketAddr, SocketAddr)>> = BTreeMap::new();
         for p in ps.iter() {
@@ -937,6 +1056,11 @@ impl Sim {
         }
         self.settle();
         self.conn_tags("after-probes");
+        if !self.failed {
+            // every probe connection is closed on both ends: exactly the scenario's sockets remain
+            // (one server-side socket per established 4-tuple)
+            self.check_counts("the probe matrix");
+        }
     }
 
     /// deliver what is on the wire, then compare what every UDP socket received with `expected`
@@ -1064,7 +1188,9 @@ pub fn run(sc: &Scenario) -> Outcome {
             v
         })
         .collect();
-    let k = KernelConfig::default().retx_threshold(RETX_T).retx_max(RETX_M);
+    let delayed = sc.wire.as_ref().map(|w| w.holds.iter().any(|h| *h >= 2) || w.drop_synack.is_some()).unwrap_or(false);
+    let retx_m = if delayed { RETX_M_DELAYED } else { RETX_M };
+    let k = KernelConfig::default().retx_threshold(RETX_T).retx_max(retx_m);
     let world = World::new(k, &hosts);
     for h in 0..nh {
         world.set_eph(h, EPH_BASE..=EPH_BASE + cfg[h].eph_len as u16 - 1);
@@ -1080,6 +1206,17 @@ pub fn run(sc: &Scenario) -> Outcome {
         shared_port: false,
         port0_allocs: BTreeMap::new(),
         trace: std::env::var("VERIF_TRACE").is_ok(),
+        retx_m,
+        delayed,
+        pol: WirePol {
+            holds: sc.wire.as_ref().map(|w| if w.holds.is_empty() { vec![0] } else { w.holds.iter().map(|h| *h as u32).collect() }).unwrap_or_default(),
+            drop_synack: sc.wire.as_ref().and_then(|w| w.drop_synack.map(|n| n as u32)),
+            active: false,
+            n_tcp: 0,
+            n_synack: 0,
+            dropped: false,
+        },
+        syn_seen: BTreeSet::new(),
         world,
     };
     for op in sc.ops.iter() {
@@ -1135,6 +1272,10 @@ pub fn run(sc: &Scenario) -> Outcome {
     }
     sim.out.nontrivial = sim.shared_port;
     sim.out.label(format!("hosts={nh}"));
+    sim.out.label(if delayed { "wire:delayed" } else { "wire:immediate" });
+    if sim.pol.dropped {
+        sim.out.label("wire:dropped-a-syn-ack");
+    }
     if sim.cfg.iter().any(|c| c.v4 == 2 || c.v6 == 2) {
         sim.out.label("multi-homed");
     }
@@ -1178,7 +1319,11 @@ fn op_strategy() -> BoxedStrategy<Op> {
 
 pub fn strategy() -> BoxedStrategy<Scenario> {
     let host = (1u8..=2, 1u8..=2, 1u8..=4).prop_map(|(v4, v6, eph_len)| HostCfg { v4, v6, eph_len });
-    (prop::collection::vec(host, 2..=3), prop::collection::vec(op_strategy(), 3..26)).prop_map(|(hosts, ops)| Scenario { hosts, ops }).boxed()
+    let wire = prop_oneof![
+        1 => Just(None),
+        1 => (prop::collection::vec(prop_oneof![2 => Just(0u8), 2 => Just(2u8), 2 => Just(3u8), 1 => Just(4u8)], 1..8), prop::option::weighted(0.35, 0u8..6)).prop_map(|(holds, drop_synack)| Some(WirePlan { holds, drop_synack })),
+    ];
+    (prop::collection::vec(host, 2..=3), prop::collection::vec(op_strategy(), 3..26), wire).prop_map(|(hosts, ops, wire)| Scenario { hosts, ops, wire }).boxed()
 }
 
 fn check(tier: Tier, seed: u64) -> i32 {
@@ -1186,11 +1331,12 @@ fn check(tier: Tier, seed: u64) -> i32 {
     ctx.replay_corpus(&replay);
     ctx.random("table", tier.pick(30_000, 400_000), &|| strategy(), &run);
     ctx.finish(
-        "random scenarios: 2-3 hosts with 1-2 IPv4 and 1-2 IPv6 addresses each, ephemeral range 5001..=5001+k-1 (k = 1..4, hook H3; overlaps the fixed ports 5001 and 5002) x 3-25 operations (UDP bind / TCP listener bind to wildcard, loopback, a local address, an address of another host or an unknown address, port 0 or 5000/5001/5002; UDP connect to an address of some host, loopback or an unknown address; TCP connect + accept; close) x the full probe matrix (from every host a tagged UDP datagram and a TCP connect to every address of every host, loopback and an unknown address in both families, on the 3 fixed ports and every port in use; a datagram from the exact peer of every connected UDP socket; a tag each way on every established connection). Non-trivial = at some point >= 2 live UDP sockets / TCP listeners of one host share a port number across addresses, families or protocols; distinct by scenario hash.",
+        "random scenarios: 2-3 hosts with 1-2 IPv4 and 1-2 IPv6 addresses each, ephemeral range 5001..=5001+k-1 (k = 1..4, hook H3; overlaps the fixed ports 5001 and 5002) x wire class (immediate 50% / delayed 50%: TCP segments of connects held 0 or 2..4 rounds by a generated pattern, in 35% of those one SYN-ACK lost; retx_threshold 3, retx_max 1 resp. 4) x 3-25 operations (UDP bind / TCP listener bind to wildcard, loopback, a local address, an address of another host or an unknown address, port 0 or 5000/5001/5002; UDP connect to an address of some host, loopback or an unknown address; TCP connect + accept; close) x the full probe matrix (from every host a tagged UDP datagram and a TCP connect to every address of every host, loopback and an unknown address in both families, on the 3 fixed ports and every port in use; a datagram from the exact peer of every connected UDP socket; a tag each way on every established connection). Non-trivial = at some point >= 2 live UDP sockets / TCP listeners of one host share a port number across addresses, families or protocols; distinct by scenario hash.",
         &[
             "no SO_REUSEADDR/SO_REUSEPORT: the shim does not expose them and Kernel::set_option panics (unimplemented) for them; without them an exact-address socket and a wildcard socket of the same (family, protocol, port) can never coexist, so the 'exact before wildcard' order and the 'connected exact socket vs. wildcard fallback' case are not reachable through the public API",
             "IPv4 and IPv6 are separate port spaces (no dual-stack wildcard)",
-            "every packet is delivered in the round it is emitted; TCP connections are closed on both ends and left to finish before the next step, so that 'live socket' is unambiguous",
+            "UDP datagrams and the segments of closing connections are always delivered in the round they are emitted; only TCP segments emitted while a connect is in progress are delayed / reordered (delayed class), holds <= 4 rounds and at most one lost SYN-ACK against a budget of retx_threshold 3 x retx_max 4, and the wire is left to settle before results, accept queues and table counts are judged",
+            "TCP connections are closed on both ends and left to finish before the next step, so that 'live socket' is unambiguous",
             "which free port an ephemeral allocation returns is not predicted (any port of the range unused at every local address of that family+protocol is accepted); exhaustion must fail with AddrInUse",
             "a wildcard-bound socket sends from the host's first address of the family (loopback towards loopback), as kernel/udp.rs and kernel/tcp.rs document",
         ],
